@@ -144,9 +144,10 @@ func osmDocs() []osmDoc {
 }
 
 type c18m struct {
-	c   *Ctx
-	it  *oInterp
-	err oval
+	c      *Ctx
+	nprocs int // what runtime.GOMAXPROCS answers in the extraction runs (0: 2)
+	it     *oInterp
+	err    oval
 	// types
 	dataT, nodeT, wayT, relT, memberT    *types.Named
 	xNodeT, xWayT, xRelT                 types.Type // external element types
@@ -242,6 +243,9 @@ func c18model(c *Ctx, rule string) {
 		case isOpaque(recv, "file") && f.Name() == "Seek":
 			return []oval{oInt(0), oNil{}}, true
 		case full == "runtime.GOMAXPROCS" || full == "runtime.NumCPU":
+			if m.nprocs > 0 {
+				return []oval{oInt(m.nprocs)}, true
+			}
 			return []oval{oInt(2)}, true
 		case strings.HasPrefix(full, "(*sync.Mutex).") || strings.HasPrefix(full, "(*sync.RWMutex)."):
 			return nil, false // the interpreter's own model: uncontended, but released only when held
@@ -961,7 +965,21 @@ func (m *c18m) passModel(rule string, check *types.Func, keepTags oval) {
 				}})
 			}
 		}
-		for _, ord := range eorders {
+		type eRun struct {
+			ord    int
+			nprocs int
+		}
+		var eruns []eRun
+		for oi := range eorders {
+			eruns = append(eruns, eRun{oi, 2})
+			if oi == 0 || c.Thorough {
+				// the result does not depend on the number of processors the pool is sized by
+				eruns = append(eruns, eRun{oi, 1}, eRun{oi, 3})
+			}
+		}
+		for _, er := range eruns {
+			ord := eorders[er.ord]
+			m.nprocs = er.nprocs
 			if bad != "" || unk != "" {
 				break
 			}
@@ -987,7 +1005,7 @@ func (m *c18m) passModel(rule string, check *types.Func, keepTags oval) {
 			c.Evals(1)
 			res, why := m.it.Call(ext, nil, args, 0)
 			m.it.seqGo, m.it.pending = false, nil
-			what := fmt.Sprintf("selecting %s from a document whose objects come in %s", d.name, ord.name)
+			what := fmt.Sprintf("selecting %s from a document whose objects come in %s (GOMAXPROCS %d)", d.name, ord.name, er.nprocs)
 			if os.Getenv("VERIF_TRACE") != "" {
 				got, _ := contents(res0(res))
 				fmt.Fprintf(os.Stderr, "TRACE extract %s: why=%q scans=%d got=%s\n", what, why, m.scans, showRefs(got))
@@ -1025,7 +1043,8 @@ func (m *c18m) passModel(rule string, check *types.Func, keepTags oval) {
 				}
 			}
 		}
-		report3(c, rule, cons, epos, bad, unk, fmt.Sprintf("the extraction loop, run under the sequential schedule (workers take the objects in the order scanned) on the document in %d orders, reads it again until nothing new is asked for and returns the least closed set; Check accepts it", len(eorders)))
+		m.nprocs = 0
+		report3(c, rule, cons, epos, bad, unk, fmt.Sprintf("the extraction loop, run under the sequential schedule (workers take the objects in the order scanned) on the document in %d orders (%d runs: GOMAXPROCS 2, and 1 and 3 in file order), reads it again until nothing new is asked for and returns the least closed set; Check accepts it", len(eorders), len(eruns)))
 	}
 }
 
